@@ -223,6 +223,10 @@ class StoreAdapter(Adapter):
             if best is None or len(diffs) < len(best):
                 best = diffs
         best = best or {"?"}
+        if self.kind == "dir" and act == "WriteNC" and f["mode"] == "a" and pre.startswith("N") and "ret=ok" in best and best <= {"ret=ok", "nc[self]"}:
+            # root cause: write_not_completed in append mode replaces an existing not-completed record
+            # (re-running apply_to relies on it); completed records are protected
+            return "dir:append-rewrites-not-completed"
         if self.kind == "dir" and all("completed-md5" in d for d in best):
             # root cause: a directory store keeps ONE md5 file (md5/<id>.txt) for the completed
             # and the not-completed record of an identifier
